@@ -144,11 +144,11 @@ func c14(c *ctx) {
 		})
 		for _, cs := range callsIn(processDSE, false, dseCheck) {
 			vs := c.p.path(argOf(cs, 0))
-			r.Check(strings.Contains(vs, ".LoadCommittee(") && strings.HasSuffix(vs, "#0"), "R1/ProcessDSE/check-committee", c.p.Pos(cs.Pos()), "evidence checked against the loaded committee", "the evidence is checked against "+vs+", not the committee loaded for its root height")
+			r.Check(has(vs, ".LoadCommittee(") && hasSuffix(vs, "#0"), "R1/ProcessDSE/check-committee", c.p.Pos(cs.Pos()), "evidence checked against the loaded committee", "the evidence is checked against "+vs+", not the committee loaded for its root height")
 		}
 		for _, cs := range callsIn(processDSE, false, getDS) {
 			a, b, vs := c.p.path(recvOf(cs)), c.p.path(argOf(cs, 0)), c.p.path(argOf(cs, 1))
-			okk := strings.HasSuffix(a, ".VoteA.Signature") && strings.HasSuffix(b, ".VoteB.Signature") && strings.Contains(vs, ".LoadCommittee(")
+			okk := hasSuffix(a, ".VoteA.Signature") && hasSuffix(b, ".VoteB.Signature") && has(vs, ".LoadCommittee(")
 			r.Check(okk, "R1/ProcessDSE/intersection-operands", c.p.Pos(cs.Pos()), "intersects the two votes' signatures over the loaded committee", "GetDoubleSigners is given ("+a+", "+b+", "+vs+"), expected (VoteA.Signature, VoteB.Signature, loaded committee)")
 		}
 	}
